@@ -41,15 +41,16 @@ type c09Target struct {
 	Code   int
 	Name   string
 	Render func(t tabular.Table) (string, error)
+	Wrap   func(t tabular.Table) RenderW // the wrapper alone (kept across a build in staged mode)
 }
 
 func c09Targets() []c09Target {
 	ts := []c09Target{
-		{0, "csv", func(t tabular.Table) (string, error) { return csv.Wrap(t).Render() }},
-		{1, "html", func(t tabular.Table) (string, error) { return html.Wrap(t).Render() }},
-		{2, "json", func(t tabular.Table) (string, error) { return tjson.Wrap(t).Render() }},
-		{3, "markdown", func(t tabular.Table) (string, error) { return markdown.Wrap(t).Render() }},
-		{4, "texttable", func(t tabular.Table) (string, error) { return texttable.Wrap(t).Render() }},
+		{0, "csv", func(t tabular.Table) (string, error) { return csv.Wrap(t).Render() }, func(t tabular.Table) RenderW { return csv.Wrap(t) }},
+		{1, "html", func(t tabular.Table) (string, error) { return html.Wrap(t).Render() }, func(t tabular.Table) RenderW { return html.Wrap(t) }},
+		{2, "json", func(t tabular.Table) (string, error) { return tjson.Wrap(t).Render() }, func(t tabular.Table) RenderW { return tjson.Wrap(t) }},
+		{3, "markdown", func(t tabular.Table) (string, error) { return markdown.Wrap(t).Render() }, func(t tabular.Table) RenderW { return markdown.Wrap(t) }},
+		{4, "texttable", func(t tabular.Table) (string, error) { return texttable.Wrap(t).Render() }, func(t tabular.Table) RenderW { return texttable.Wrap(t) }},
 	}
 	code := 10
 	for _, d := range decoration.RegisteredDecorationNames() {
@@ -58,16 +59,22 @@ func c09Targets() []c09Target {
 			tt := texttable.Wrap(t)
 			tt.SetDecorationNamed(d)
 			return tt.Render()
+		}, func(t tabular.Table) RenderW {
+			tt := texttable.Wrap(t)
+			tt.SetDecorationNamed(d)
+			return tt
 		}})
 		code++
 	}
 	code = 30
 	for _, s := range auto.ListStyles() {
 		s := s
-		ts = append(ts, c09Target{code, "auto:" + s, func(t tabular.Table) (string, error) { return auto.Render(t, s) }})
+		ts = append(ts, c09Target{code, "auto:" + s, func(t tabular.Table) (string, error) { return auto.Render(t, s) },
+			func(t tabular.Table) RenderW { return auto.Wrap(t, s) }})
 		code++
 	}
-	ts = append(ts, c09Target{60, "auto:no-such-style", func(t tabular.Table) (string, error) { return auto.Render(t, "no-such-style") }})
+	ts = append(ts, c09Target{60, "auto:no-such-style", func(t tabular.Table) (string, error) { return auto.Render(t, "no-such-style") },
+		func(t tabular.Table) RenderW { return auto.Wrap(t, "no-such-style") }})
 	return ts
 }
 
@@ -78,6 +85,30 @@ type C09Spec struct {
 	Table  TableSpec `json:"table"`
 	Shared bool      `json:"shared,omitempty"`
 	Perm   uint64    `json:"perm,omitempty"` // order of the first round over the targets
+	// Staged: additionally, for every target, ONE wrapper is made around the
+	// still empty table and rendered after every row that joins it (and before
+	// and after a second AddHeaders): a long-lived wrapper of a growing table.
+	Staged bool `json:"staged,omitempty"`
+	// TwoTables: the first pre-built row is also attached to a second table and
+	// then extended by one cell (the second table learns of the new column, the
+	// first does not: its row is now longer than its column count).
+	TwoTables bool `json:"two_tables,omitempty"`
+}
+
+// c09Build builds the spec's table through the public API.
+func c09Build(sp C09Spec, t tabular.Table) {
+	sp.Table.Build(t)
+	if sp.TwoTables {
+		for _, row := range t.AllRows() {
+			if row.IsSeparator() {
+				continue
+			}
+			other := tabular.New()
+			other.AddRow(row)
+			row.Add(tabular.NewCell("extra"))
+			break
+		}
+	}
 }
 
 func c09Parse(spec json.RawMessage) C09Spec {
@@ -114,7 +145,37 @@ func init() {
 			n2 := 0
 			add := func(ts TableSpec) {
 				n2++
-				out = append(out, mustJSON(C09Spec{Table: ts, Shared: n2%3 == 0, Perm: r.U64() % 1000003}))
+				out = append(out, mustJSON(C09Spec{Table: ts, Shared: n2%3 == 0, Perm: r.U64() % 1000003, Staged: n2%4 == 1, TwoTables: n2%7 == 2}))
+			}
+			// a second, shorter (or empty) header: the table stays as wide as it was
+			for _, k := range []int{0, 1, 2} {
+				h := []ItemSpec{Str("a"), Str("b"), Str("c")}
+				h2 := h[:k]
+				for _, rows := range [][]RowSpec{nil, {{Cells: []ItemSpec{Str("1")}}}, {{Cells: []ItemSpec{Str("1")}}, {Sep: true}, {Cells: []ItemSpec{Str("x"), Str("y")}}}} {
+					add(TableSpec{Header: &h, Rows: rows, Header2: &h2})
+				}
+			}
+			// tables that reach 9..47 columns (by the header, by one row, cell by cell)
+			for _, k := range []int{9, 10, 11, 12, 21, 22, 23, 45, 46, 47} {
+				for how := 0; how < 3; how++ {
+					add(wideSpec(k, how, c09Item, r))
+				}
+			}
+			// rows that grow by one column each, under a long-lived wrapper
+			{
+				var grow TableSpec
+				for k := 1; k <= 9; k++ {
+					cs := make([]ItemSpec, k)
+					for i := range cs {
+						cs[i] = c09Item(r)
+					}
+					grow.Rows = append(grow.Rows, RowSpec{How: k % 4, Cells: cs})
+				}
+				out = append(out, mustJSON(C09Spec{Table: grow, Staged: true}))
+				h := []ItemSpec{Str("h")}
+				grow.Header = &h
+				grow.HeaderAt = 4
+				out = append(out, mustJSON(C09Spec{Table: grow, Staged: true}))
 			}
 			// columns of boundary widths (glyph runs, padding runs) under every decoration
 			for _, w := range []int{62, 63, 64, 65, 100, 127, 128, 129, 190, 191, 192, 256, 300} {
@@ -145,7 +206,9 @@ func init() {
 				n = 10000
 			}
 			for i := 0; i < n; i++ {
-				add(randTable(r, 6, 5, c09Item, []int{0, 1, 2, 2, 3}))
+				ts := randTable(r, 6, 5, c09Item, []int{0, 1, 2, 2, 3})
+				enrichSpec(r, &ts, c09Item)
+				add(ts)
 			}
 			return out
 		},
@@ -153,7 +216,7 @@ func init() {
 			sp := c09Parse(spec)
 			ts := sp.Table
 			probe := tabular.New()
-			ts.Build(probe)
+			c09Build(sp, probe)
 			view := extractView(probe)
 			var outs []string
 			type bad struct {
@@ -167,7 +230,7 @@ func init() {
 			var shared tabular.Table
 			if sp.Shared {
 				shared = tabular.New()
-				ts.Build(shared)
+				c09Build(sp, shared)
 				// a first round over every target on the same table; the second round is the one judged
 				order := make([]int, len(targets))
 				for i := range order {
@@ -187,7 +250,7 @@ func init() {
 				t := shared
 				if t == nil {
 					t = tabular.New() // fresh table per render
-					ts.Build(t)
+					c09Build(sp, t)
 				}
 				o := capture(func() (string, error) { return tg.Render(t) })
 				kind := map[string]int{"ok": 0, "err": 1, "panic": 2}[o.Kind]
@@ -206,8 +269,53 @@ func init() {
 					}
 				}
 			}
+			if sp.Staged {
+				every := ts
+				every.Stages = nil
+				for i := range ts.Rows {
+					every.Stages = append(every.Stages, i)
+				}
+				for _, tg := range targets {
+					tg := tg
+					t := tabular.New()
+					var w RenderW
+					if mk := capture(func() (string, error) { w = tg.Wrap(t); return "", nil }); mk.Kind != "ok" || w == nil {
+						continue
+					}
+					stage := func() {
+						o := capture(w.Render)
+						kind := map[string]int{"ok": 0, "err": 1, "panic": 2}[o.Kind]
+						if kind == 0 {
+							o.Out = nil
+						}
+						if kind != 0 { // a successful intermediate render needs no verdict
+							outs = append(outs, fmt.Sprintf("(%s, %s, %s)", cqNat(100+tg.Code), cqNat(kind), cqBytes(o.Out)))
+						}
+						if kind == 2 || (kind == 1 && len(o.Out) > 0) {
+							if len(bads) < 4 {
+								bads = append(bads, bad{tg.Name + " (long-lived wrapper)", o})
+							}
+							if sig == "" {
+								sig = map[int]string{2: "panic:", 1: "text-with-error:"}[kind] + tg.Name
+							}
+						}
+					}
+					stage()
+					every.BuildStaged(t, stage)
+					stage()
+				}
+			}
 			vc := view.Coq(true)
 			tags := append(shapeTags(view), "classes="+classes[:5])
+			if sp.Staged {
+				tags = append(tags, "long-lived-wrappers")
+			}
+			if sp.TwoTables {
+				tags = append(tags, "row-in-two-tables")
+			}
+			if view.NCols >= 10 {
+				tags = append(tags, "ten-or-more-columns")
+			}
 			if sp.Shared {
 				tags = append(tags, "one-table-all-targets-twice")
 			}
@@ -230,10 +338,16 @@ func init() {
 			sp := c09Parse(spec)
 			var out []json.RawMessage
 			for _, c := range shrinkTable(sp.Table) {
-				out = append(out, mustJSON(C09Spec{Table: c, Shared: sp.Shared, Perm: sp.Perm}))
+				out = append(out, mustJSON(C09Spec{Table: c, Shared: sp.Shared, Perm: sp.Perm, Staged: sp.Staged, TwoTables: sp.TwoTables}))
 			}
 			if sp.Shared {
-				out = append(out, mustJSON(C09Spec{Table: sp.Table}))
+				out = append(out, mustJSON(C09Spec{Table: sp.Table, Staged: sp.Staged, TwoTables: sp.TwoTables}))
+			}
+			if sp.Staged {
+				out = append(out, mustJSON(C09Spec{Table: sp.Table, Shared: sp.Shared, Perm: sp.Perm, TwoTables: sp.TwoTables}))
+			}
+			if sp.TwoTables {
+				out = append(out, mustJSON(C09Spec{Table: sp.Table, Shared: sp.Shared, Perm: sp.Perm, Staged: sp.Staged}))
 			}
 			return out
 		},
